@@ -1,6 +1,7 @@
 import Lean.Data.Json
 import Vanguard.Model.Run
 import Vanguard.Spec.Codes
+import Vanguard.Spec.Progress
 /-!
   The `e2e` op: parse a scenario (JSON in hex, written by harness/e2e.go), run the model's
   `serve`, and render the observation in exactly the canonical form the harness prints for the
@@ -124,6 +125,7 @@ def parseScenario (j : Json) : Option Parsed := do
     | .arr cells =>
       match cells.toList.filterMap (fun c => c.getStr?.toOption) with
       | ["readn", k, b] => some (BOp.readn k.toNat! b.toNat!)
+      | ["readfix", k, b] => some (BOp.readfix k.toNat! b.toNat!)
       | ["readall", b] => some (BOp.readall b.toNat!)
       | ["sethdr", k, v] => match fromHex k, fromHex v with
         | some k, some v => some (BOp.sethdr k v)
@@ -397,6 +399,23 @@ def renderErr : Option Err → String
   | some .eof => "eof"
   | some _ => "err"
 
+/-- Byte offset of the position after the first `n` items; `E` = the end of the body (the byte
+    length of end frames / error bodies generated by vanguard is not known to the model). -/
+def itemOffsets (items : List Item) : Array (Option Nat) :=
+  (items.foldl (fun (acc : Array (Option Nat) × Option Nat) i =>
+    let next : Option Nat := match acc.2, i with
+      | some a, .raw b => some (a + b.length)
+      | _, _ => none
+    (acc.1.push next, next)) (#[some 0], some 0)).1
+
+def itemPos (offsets : Array (Option Nat)) (nItems : Nat) : Option Nat → String
+  | none => "-"
+  | some n =>
+    if n ≥ nItems then "E" else
+    match offsets[n]? with
+    | some (some k) => toString k
+    | _ => "?"
+
 def renderObs (p : Parsed) (o : Obs) : String :=
   let b := o.backend
   let backendPart : List String :=
@@ -407,6 +426,10 @@ def renderObs (p : Parsed) (o : Obs) : String :=
        s!"bq={toHex b.rawQuery}", s!"bv={b.protoMajor}", s!"bcl={b.contentLength}", s!"bh={renderHdr b.headers}",
        s!"br={toHex b.read}", s!"bre={renderErr b.readEnd}",
        s!"bw={if b.writes.isEmpty then "-" else ",".intercalate (b.writes.map fun f => if f then "err" else "ok")}",
+       s!"rp={if b.readProg.isEmpty then "-" else ",".intercalate (b.readProg.map fun x => s!"{x.1}:{x.2}")}",
+       (let offs := itemOffsets o.sink.items
+        let n := o.sink.items.length
+        s!"wp={if b.writeProg.isEmpty then "-" else ",".intercalate (b.writeProg.map fun x => itemPos offs n (some x.1) ++ ":" ++ itemPos offs n x.2)}"),
        "ctx=1"]
   let k := o.sink
   let k := if k.status.isNone then { k with status := some 200, snap := k.hdr } else k
@@ -1045,6 +1068,67 @@ def oracleC05 (p : Parsed) (ex : Option Expect) (fs : List (String × String)) :
             | none => none
   | _ => none
 
+/-- C16: between streaming-capable protocols every completed message is forwarded at once, in both
+    directions (progress logs `wp`, `rp` of the observation judged by `Spec.respStepOk` /
+    `Spec.reqStepOk`). -/
+def oracleC16 (p : Parsed) (ex : Option Expect) (fs : List (String × String)) : Option String :=
+  if fieldOf fs "stall" != "" then
+    some ("a strictly alternating client would wait for ever: the transcoder asked for a request message the client sends only after a response it has not been given (" ++ fieldOf fs "stall" ++ ")") else
+  match branchOf p, ex with
+  | .transcoded o, some ex =>
+    let streamingClient := p.cp == "grpc" || p.cp == "grpcweb" || p.cp == "connect-stream"
+    let srvEndFlag : Option UInt8 := match o.sform with
+      | .grpc => some 0 | .grpcWeb => some 0x80 | .connectStream => some 2 | _ => none
+    match srvEndFlag with
+    | none => none
+    | some srvEndFlag =>
+    if !streamingClient || !ex.sizesSafe || fieldOf fs "disp" != "svc" || fieldOf fs "panic" != "0" then none else
+    let cliEndFlag : UInt8 := if p.cp == "grpcweb" then 0x80 else if p.cp == "connect-stream" then 2 else 0
+    -- the client's final body, rebuilt from the canonical frame list
+    let cb := fieldOf fs "cb"
+    if cb == "MALFORMED" || cb == "BADFLAGS" || cb == "gen" then none else
+    let cframes : List (UInt8 × Bytes) := if cb == "-" || cb == "" then [] else
+      (cb.splitOn ",").filterMap fun t => match t.splitOn ":" with
+        | [f, h] => ((f.drop 1).toNat?).bind fun fl => (fromHex h).map fun b => (UInt8.ofNat fl, b)
+        | _ => none
+    let clientFrames : List (Nat × UInt8) := (cframes.foldl (fun (acc : Nat × List (Nat × UInt8)) f =>
+      (acc.1 + 5 + f.2.length, acc.2 ++ [(acc.1 + 5 + f.2.length, f.1)])) (0, [])).2
+    let dataTotal := clientFrames.foldl (fun m f => max m f.1) 0
+    let num (v : String) : Option Nat := if v == "-" then some 0 else if v == "E" then some (dataTotal + 1000000) else v.toNat?
+    let wp := fieldOf fs "wp"
+    let wps : List (Option Nat) := if wp == "-" || wp == "" then [] else
+      (wp.splitOn ",").map fun t => match t.splitOn ":" with
+        | [_, f] => num f
+        | _ => none
+    let writes : List Bytes := p.sc.script.filterMap fun op => match op with | .write b => some b | _ => none
+    -- cumulative output of the backend after each write
+    let cum : List Bytes := (writes.foldl (fun (acc : Bytes × List Bytes) b => (acc.1 ++ b, acc.2 ++ [acc.1 ++ b])) ([], [])).2
+    let respBad := (cum.zip wps).any fun (written, fl) => match fl with
+      | some fl => !Spec.respStepOk written srvEndFlag clientFrames cliEndFlag fl
+      | none => true
+    if respBad then some "a response message the backend had completed was not on the wire when its Write returned" else
+    -- request direction
+    let body := p.sc.src.chunks.flatten
+    let cliEnds := (Spec.framesOf body).map (·.1)
+    let srvEnds := match fromHex (fieldOf fs "br") with
+      | some br => (Spec.framesOf br).map (·.1)
+      | none => []
+    let rp := fieldOf fs "rp"
+    let rps : List (Option (Nat × Nat)) := if rp == "-" || rp == "" then [] else
+      (rp.splitOn ",").map fun t => match t.splitOn ":" with
+        | [d, q] => match d.toNat?, q.toNat? with
+          | some d, some q => some (d, q)
+          | _, _ => none
+        | _ => none
+    -- only meaningful when the client's body is a clean sequence of frames
+    if (cliEnds.getLast?.getD 0) != body.length then none else
+    let reqBad := rps.any fun e => match e with
+      | some (d, q) => !Spec.reqStepOk srvEnds cliEnds body.length d q
+      | none => true
+    if reqBad then some "handing a request message to the handler took more of the client's body than the messages handed out so far"
+    else none
+  | _, _ => none
+
 def specE2E (prop : String) (hexJson : String) (res : List String) : String :=
   match (fromHex hexJson).bind (fun b => (Json.parse (bytesToString b)).toOption) |>.bind parseScenario with
   | none => "nospec"
@@ -1063,6 +1147,7 @@ def specE2E (prop : String) (hexJson : String) (res : List String) : String :=
       | "C01" => (parseExpect p.json).map fun ex => oracleC01 p ex fs
       | "C04" => (parseExpect p.json).map fun ex => oracleC04 p ex fs
       | "C05" => some (oracleC05 p (parseExpect p.json) fs)
+      | "C16" => some (oracleC16 p (parseExpect p.json) fs)
       | _ => none
     match r with
     | none => "nospec"
